@@ -52,6 +52,11 @@ pub struct SProfile {
     pub p_sequential: u32,
     pub p_allow_skipped: u32,
     pub p_logs: u32,
+    /// probability (x/100) that a feature / rule without scenarios is still bracketed
+    pub p_empty_brackets: u32,
+    /// probability (x/100) that a feature is a twin of the previous one: same title, same
+    /// scenarios, steps and lines, both without a path (one template rendered twice)
+    pub p_twin_feature: u32,
     /// weights: pass, skip, panic, ambiguous, notfound
     pub outcome_w: [u32; 5],
     pub decorate: bool,
@@ -87,6 +92,8 @@ impl Default for SProfile {
             p_sequential: 20,
             p_allow_skipped: 10,
             p_logs: 25,
+            p_empty_brackets: 0,
+            p_twin_feature: 0,
             outcome_w: [60, 10, 12, 6, 0],
             decorate: false,
             exclude_nonfinal_hook_failure: false,
@@ -125,12 +132,17 @@ pub struct Sc {
 pub struct Ru {
     pub src: Source<gherkin::Rule>,
     pub scs: Vec<Sc>,
+    /// a rule without scenarios still gets a `Started` / `Finished` pair (the ordering contract
+    /// allows an empty bracket; `runner::Basic` does not produce one today)
+    pub bracket_when_empty: bool,
 }
 
 pub struct Fe {
     pub src: Source<gherkin::Feature>,
     pub scs: Vec<Sc>,
     pub rules: Vec<Ru>,
+    /// as for `Ru`
+    pub bracket_when_empty: bool,
 }
 
 pub struct Tree {
@@ -416,6 +428,7 @@ pub fn gen_tree(t: &mut Tape, p: &SProfile) -> Tree {
         if pct(t, p.p_allow_skipped / 2) {
             ftags.push("allow.skipped".to_string());
         }
+        let twin = fi > 0 && p.p_twin_feature > 0 && pct(t, p.p_twin_feature) && !p.exclude_pathless;
         let feat = gherkin::Feature {
             keyword: "Feature".into(),
             name: fname,
@@ -427,6 +440,16 @@ pub fn gen_tree(t: &mut Tape, p: &SProfile) -> Tree {
             span: gherkin::Span::default(),
             position: gherkin::LineCol { line: 1, col: 1 },
             path: (!pathless).then(|| format!("/vt/f{fi}.feature").into()),
+        };
+        let feat = if twin {
+            // the previous feature, rendered once more (and the original loses its path too)
+            let prev: &mut Fe = feats.last_mut().unwrap();
+            let mut g = (*prev.src).clone();
+            g.path = None;
+            prev.src = Source::new(g.clone());
+            g
+        } else {
+            feat
         };
         let fsrc = Source::new(feat.clone());
         let scs2: Vec<Sc> = feat
@@ -443,6 +466,7 @@ pub fn gen_tree(t: &mut Tape, p: &SProfile) -> Tree {
             .iter()
             .enumerate()
             .map(|(ri, r)| Ru {
+                bracket_when_empty: r.scenarios.is_empty() && p.p_empty_brackets > 0 && pct(t, p.p_empty_brackets),
                 src: Source::new(r.clone()),
                 scs: r
                     .scenarios
@@ -455,7 +479,8 @@ pub fn gen_tree(t: &mut Tape, p: &SProfile) -> Tree {
                     .collect(),
             })
             .collect();
-        feats.push(Fe { src: fsrc, scs: scs2, rules: rules2 });
+        let bracket_when_empty = p.p_empty_brackets > 0 && pct(t, p.p_empty_brackets);
+        feats.push(Fe { src: fsrc, scs: scs2, rules: rules2, bracket_when_empty });
     }
     let mut errors = vec![];
     for i in 0..3 {
@@ -558,7 +583,7 @@ pub fn linearise_full(pick: &mut dyn FnMut(usize) -> usize, tree: &Tree, seq: bo
         if run_started {
             for (fi, f) in tree.feats.iter().enumerate() {
                 let s = &st[fi];
-                let has_content = f.scs.iter().any(|s| !s.attempts.is_empty()) || f.rules.iter().any(|r| r.scs.iter().any(|s| !s.attempts.is_empty()));
+                let has_content = f.scs.iter().any(|s| !s.attempts.is_empty()) || f.rules.iter().any(|r| r.bracket_when_empty || r.scs.iter().any(|s| !s.attempts.is_empty())) || f.bracket_when_empty;
                 if !has_content || s.finished {
                     continue;
                 }
@@ -574,7 +599,7 @@ pub fn linearise_full(pick: &mut dyn FnMut(usize) -> usize, tree: &Tree, seq: bo
                     }
                 }
                 for (ri, r) in f.rules.iter().enumerate() {
-                    if r.scs.iter().all(|s| s.attempts.is_empty()) {
+                    if r.scs.iter().all(|s| s.attempts.is_empty()) && !r.bracket_when_empty {
                         continue;
                     }
                     let (rs, rf, rsc) = &s.rules[ri];
@@ -708,7 +733,8 @@ pub enum StepRes {
 pub enum What {
     RunStarted,
     RunFinished,
-    ParsingFinished,
+    /// [features, rules, scenarios, steps, parser_errors]
+    ParsingFinished([usize; 5]),
     ParserError(String),
     FeatureStarted,
     FeatureFinished,
@@ -797,7 +823,7 @@ pub fn decode(e: &Ev) -> Key {
             match &ev.value {
                 Cucumber::Started => k(0, 0, 0, None, What::RunStarted, at),
                 Cucumber::Finished => k(0, 0, 0, None, What::RunFinished, at),
-                Cucumber::ParsingFinished { .. } => k(0, 0, 0, None, What::ParsingFinished, at),
+                Cucumber::ParsingFinished { features, rules, scenarios, steps, parser_errors } => k(0, 0, 0, None, What::ParsingFinished([*features, *rules, *scenarios, *steps, *parser_errors]), at),
                 Cucumber::Feature(f, fe) => {
                     let fp = src_ptr(f);
                     match fe {
